@@ -726,7 +726,8 @@ func lexStatic(args []string) error {
 			got := d.Symbols()
 			// the property speaks of "that rule's symbol", not of particular numbers: the table must have exactly the
 			// specification's names, EOF = lexer.EOF, and distinct numbers for distinct names
-			ok := len(got) == len(want) && got["EOF"] == lexer.EOF
+			// (a rule that is itself called EOF takes the name over: it has a type of its own like any other rule)
+			ok := len(got) == len(want) && (got["EOF"] == lexer.EOF || want["EOF"] != -1)
 			seenNum := map[lexer.TokenType]bool{}
 			for k := range want {
 				g, has := got[k]
